@@ -816,11 +816,26 @@ func checkVerifierAlgos(c *km.Ctx, s *km.Sem) {
 		// the set's keys come only from publicToPreferedJoseSigAlgo over KeymasterPublicKeys, under err == nil
 		n := 0
 		km.Instrs(fn, func(in ssa.Instruction) {
-			mu, ok := in.(*ssa.MapUpdate)
-			if !ok {
+			// a member of the set: the key of a map update, or the element appended to the list
+			var member ssa.Value
+			switch x := in.(type) {
+			case *ssa.MapUpdate:
+				member = x.Key
+			case *ssa.Call:
+				if b, isB := x.Common().Value.(*ssa.Builtin); isB && b.Name() == "append" && strings.HasSuffix(km.NamedTypeOf(x.Type().Underlying().(*types.Slice).Elem()), "SignatureAlgorithm") {
+					member = appendedSingle(x)
+					if member == nil {
+						n++
+						r.Add("R-C04-1", km.FuncName(fn), "verifier algorithm set member", posOf(c, in), "algorithms are derived only from the published keymaster keys (err == nil)", "append of several elements", false)
+						return
+					}
+				}
+			}
+			if member == nil {
 				return
 			}
 			n++
+			mu := struct{ Key ssa.Value }{member}
 			cl, idx := callRes(km.Unwrap(mu.Key))
 			good := cl != nil && idx == 0 && km.CalleeFull(cl.Common()) == KMD+".publicToPreferedJoseSigAlgo"
 			if good {
@@ -1018,8 +1033,19 @@ func checkExpiry(c *km.Ctx, s *km.Sem, consumers []claimsConsumer) {
 			// every user of the exported info tests it before honouring
 			users := authInfoUsers(c, fn)
 			for _, u := range users {
-				switch km.NameOf(u.fn) {
-				case "writeFailureResponse", "logoutHandler":
+				displayOnly := km.NameOf(u.fn) == "writeFailureResponse" || km.NameOf(u.fn) == "logoutHandler"
+				if !displayOnly && !c.P.IsRecorded(u.fn) {
+					// a piece of one of the two cut out into a function new to the tree
+					callers := c.G.Callers[u.fn]
+					displayOnly = len(callers) > 0
+					for _, cs := range callers {
+						if n := km.NameOf(cs.Caller); n != "writeFailureResponse" && n != "logoutHandler" {
+							displayOnly = false
+						}
+					}
+				}
+				switch {
+				case displayOnly:
 					r.Add("R-C04-4", km.FuncName(u.fn), "display-only use of a session token", posOf(c, u.call), "result used only to choose a page / a display name (no honour point)", "tabled", true)
 					continue
 				}
@@ -1065,6 +1091,12 @@ func authInfoUsers(c *km.Ctx, get *ssa.Function) []infoUser {
 				continue
 			}
 			if km.NameOf(cs.Caller) == "getAuthInfoFromAuthJWT" || returnsResultOf(cs.Caller, cl) {
+				walk(cs.Caller)
+				continue
+			}
+			// a reading stage new to the tree that hands the info (and a verdict) to the handler it was cut out
+			// of: the handler is the user
+			if !c.P.IsRecorded(cs.Caller) && handsBackInfo(cs.Caller, cl) {
 				walk(cs.Caller)
 				continue
 			}
@@ -1236,6 +1268,22 @@ func isZeroValue(v ssa.Value) bool {
 		return constant.StringVal(cst.Value) == ""
 	case constant.Int, constant.Float:
 		return constant.Sign(cst.Value) == 0
+	}
+	return false
+}
+
+// handsBackInfo: one of fn's results is the info the call produced (fn reads and checks the token for its caller).
+func handsBackInfo(fn *ssa.Function, call *ssa.Call) bool {
+	for _, b := range fn.Blocks {
+		ret, ok := b.Instrs[len(b.Instrs)-1].(*ssa.Return)
+		if !ok {
+			continue
+		}
+		for _, rv := range km.ReturnValues(ret) {
+			if cl, idx := callRes(km.CellOrigin(km.Unwrap(rv))); cl == call && idx == 0 {
+				return true
+			}
+		}
 	}
 	return false
 }
